@@ -85,7 +85,8 @@ UNIT_FALLBACK = {
     "dnastring": _DNA_FALLBACK,
     "packedset": _DNA_FALLBACK,
     "extend": _DNA_FALLBACK + [("dna_string::verif::d_rc_reverse_b_33", "rc / reverse: 33 bases"), ("dna_string::verif::d_to_bytes_b_33", "to_bytes / to_ascii_vec: 33 bases"),
-               ("dna_string::verif::d_from_acgt_bytes_b_31", "from_acgt_bytes on 31 bytes")],
+               ("dna_string::verif::d_from_acgt_bytes_b_31", "from_acgt_bytes on 31 bytes"),
+               ("dna_string::verif::d_from_acgt_bytes_b_70", "from_acgt_bytes on 70 bytes (two vector blocks + tail)")],
     "dnaslice": _SLICE_FALLBACK,
     "nodeiter": _SLICE_FALLBACK + [("graph::verif::g_node_iter_seq", "3 calls next()/nth(n<=9) on a 9-base node")],
     "scan": [("msp::verif::m_scan_p2_k2m5", "P = Kmer2, k = 2, m = 5")],
@@ -109,6 +110,16 @@ UNIT_FALLBACK = {
 }
 
 LMER_WIDE_QUICK = ("l_new", "l_get", "l_set_mut", "l_wf_canonical")  # cheap families run for the wide arrays (4..6 words) on every change
+
+
+# Enumerated native fallbacks (run only when a Verus unit is undecided and no Kani harness is tractable): the contract function is run
+# on the REAL crate for every combination of the listed values (one domain per drawn value, in draw order) - a bounded, enumerated
+# check; a failure is a replayable violation, a clean run leaves the unit undecided.
+UNIT_FALLBACK_ENUM = {
+    "summarize": [("filter::verif::f_count_filter_set_2",
+                   [(8, [0, 1, 2]), (8, [0, 1, 2, 3]), (1, [0, 1, 7]), (1, [0, 17, 130]), (1, [0, 1, 7]), (1, [0, 17, 68]), (1, [0, 1, 7])],
+                   "CountFilterSet::summarize, enumerated natively: <= 2 observations, thresholds 0..3, labels in {0,1,7}, three extension bytes (2916 cases)")],
+}
 
 
 def lmer(fams, tier, ks=None):
@@ -136,7 +147,7 @@ SEAM_NOTE = ("Seam: Verus proves generic container code against the trait-level 
 ADAPTER_NOTE = 'R21 seams (unit extend): `impl Iterator<Item = u8>` / Peekable are the ghost item source ByteSrc (next / peek by contract); `s.iter().cloned()`, `s.iter().map(f)`, `text.chars().map(f)`, `(0..n).rev().map(f)` yield f of the items in (reverse) order; `collect::<Vec<u8>>()` is the push-until-None loop over the real DnaStringIter::next (verified loop, assumed to be what std does); `values.iter().rev()` by its vstd specification'
 
 VERUS_TRUST = [
-    "Verus 0.2026.09.13 / Z3 are sound; the extractor (verus/extract.py) copies function bodies verbatim and applies only rewrite rules R1-R15 (listed in its header, counted per function in coverage.extraction)",
+    "Verus 0.2026.09.13 / Z3 are sound; the extractor (verus/extract.py) copies function bodies verbatim and applies only rewrite rules R1-R21 (listed in its header, counted per function in coverage.extraction)",
     "vstd specifications of Vec, Option, Range, String::push/new; assumed: std::cmp::min, String::with_capacity (prelude.rs)",
     "strings are shorter than 2^62 bases (max_len); usize is 64 bit",
 ]
@@ -165,7 +176,7 @@ PROPS["C13"] = {
         + ([(h, b) for h, b in _DNA_FALLBACK if "get_kmer" in h] if tier == "thorough" else []),
     "design_ref": "DESIGN.md §6 C13",
     "undecided": ["Kmer::kmers_from_bytes / kmers_from_ascii ARE proved as whole functions (real default bodies, unit kmersfrom: the result lists every window of the input, in order, nothing for inputs shorter than K) relative to two assumed std facts stated as seams (R21): `s.iter().take(n)` visits the prefix s[..n] and `s.iter().skip(n)` the suffix s[n..], in order; `enumerate` is desugared by R20",
-                  "iterator totals (exactly max(0,n-K+1) items) follow from the per-call next() contracts by induction over calls; the induction is a meta-argument, each step is a discharged obligation"],
+                  "iterator totals (exactly max(0,n-K+1) items, in order, each k-mer with its true flanks) ARE discharged obligations: kmeriter::drain_kmers / drain_kmer_exts are the call-next-until-None loop a `for` or `collect` runs, verified against the contracts of the real next bodies; that `for` / `collect` are this loop is std's meaning (the loops themselves are glue, not code of the crate)"],
     "trust": VERUS_TRUST + [SEAM_NOTE],
     "level_text": "get_kmer of the growable string, of forward and reverse-complemented slices at every offset, and of Lmer for each capacity is proved equal to the k-mer built from bases i..i+K (Verus unbounded with loop invariants across 32-base block boundaries; Kani complete per capacity); KmerIter/KmerExtsIter::next and the Vmer first/last/term accessors are proved against the window spec for any container and k-mer type satisfying the trait contract, incl. that boundary extensions are used only at the two ends.",
     "level_note": "Trusted: Verus/Z3, Kani/CBMC, extractor rules, the V<->K seam. DnaBytes/DnaSlice::{len,get,get_kmer} and MerIter::next are verified from their real bodies (unit containers); get_kmer reduces to Kmer::from_bytes (Kani k_from_bytes, complete).",
@@ -186,7 +197,7 @@ PROPS["C14"] = {
                              ("dna_string::verif::d_dna_eq_ord_hash_b1", "derived ==/cmp on strings of <= 32 bases")]
         + ([("dna_string::verif::d_dna_eq_ord_hash_b2", "derived ==/cmp/Hash on strings of <= 64 bases (2 words)")] if tier == "thorough" else []),
     "design_ref": "DESIGN.md §6 C14",
-    "undecided": ["PackedDnaStringSet::add is proved at the instance S = Vec<u8>, R = u8 of its generic item source (R21), for sequences of up to i32::MAX items (its counter `length` is an i32 by integer fallback)",
+    "undecided": ["PackedDnaStringSet::add is proved at the instances S = Vec<u8>, R = u8 and S = &VecDeque<u8>, R = &u8 of its generic item source (R21), for sequences of up to i32::MAX items (its counter `length` is an i32 by integer fallback)",
                   "derived Ord: lemma_ord_iff_view proves for ALL lengths that the order of (storage, then len) - what #[derive(Ord)] compares, in the field order read from the source on every run (obligation derive_shape_DnaString) - is the lexicographic order of the base sequences with a proper prefix first, on wf values; its word-level ingredient (u64 order = lane-lexicographic order) is the Kani-complete d_word_order, restated as axiom_word_order; that the derived impl compares exactly these fields in this way is the derive semantics (assumed; cross-checked by the bounded stand-ins)",
                   "derived ==/Hash: lemma_eq_iff_view proves (storage, len) equal <=> views equal on wf values for all lengths; that the derived impls compare/hash exactly (storage, len) is the derive semantics (assumed; cross-checked by the bounded stand-ins)"],
     "trust": VERUS_TRUST + [ADAPTER_NOTE],
@@ -211,14 +222,15 @@ PROPS["C15"] = {
 PROPS["C16"] = {
     "title": "ASCII ingestion is total and path-independent",
     "kani": lambda tier: tables(TABLES_ALL) + ["bitops_avx2::verif::a_block"],
-    "verus": [("hashn", r"^DnaString::(from_acgt_bytes_hashn|dna_only_step)$|^dna_only_base_to_bits$"),
+    "verus": [("hashn", r"^DnaString::(from_acgt_bytes_hashn|dna_only_step|from_dna_only_string)$|^(dna_only_base_to_bits|lemma_runs_close|lemma_runs_skip|lemma_runs_finish)$"),
               ("extend", r"^DnaString::(extend|from_acgt_scalar|acgt_vec_step|acgt_vec_finish|from_dna_string|to_ascii_vec)$|^(lemma_vec_path|lemma_vec_path_upto|lemma_packed_tail_\w+|base_to_bits|collect_map|bits_to_ascii)$")],
     "bounded": lambda tier: [("dna_string::verif::d_from_acgt_bytes_b_31", "from_acgt_bytes on 31 bytes, vector path available and not (feature detection nondeterministic)"),
+                             ("dna_string::verif::d_from_acgt_bytes_b_70", "from_acgt_bytes on 70 bytes: two vector blocks plus a 6-byte tail, vector path available and not"),
                              ("dna_string::verif::d_to_bytes_b_33", "to_ascii_vec on 33 bases"),
                              ("dna_string::verif::d_hashn_concrete", "from_acgt_bytes_hashn on eight concrete 8-byte reads (a fixed-input check, not a proof)")],
     "design_ref": "DESIGN.md §6 C16",
     "undecided": ["from_acgt_bytes: its scalar path (with_capacity; map base_to_bits; extend) and every trip and the closing statement of its vector path are under contract for every length and lemma_vec_path composes the trips into `wf and view == base_to_bits of every byte` - the same string on both paths; what is NOT verified is the `for chunk in bytes.chunks(32)` header itself (that chunks(32) yields bytes[32i .. min(32i+32, n)]) and the `is_x86_feature_detected!` branch",
-                  "from_dna_only_string: its loop over `dna.chars()` is outside both verifiers (str iteration); the body of that loop IS under contract (hashn::dna_only_step, rule R15: a DNA letter extends the current string, any other character closes a non-empty current string and starts a new one), the whole function is not; from_acgt_bytes_hashn IS decided (unit hashn), but relative to std's hasher being a function of the bytes fed (vstd's DefaultHasher specification plus assumed contracts for the two Hash::hash calls and for cloning the hasher)"],
+                  "from_dna_only_string IS proved as a whole function (unit hashn, runs_post: the result is exactly the maximal runs of ACGT letters of the text, in order, each non-empty and translated letter by letter; every letter lies in one run) - `dna.chars()` being a seam (R21) with the assumed meaning `the chars of the text in order`, and for chars outside Latin-1 the real code's `c as u8` truncation applies (a char whose low byte is an ACGT letter counts as that letter - recorded, the property speaks of ASCII input); from_acgt_bytes_hashn IS decided (unit hashn), but relative to std's hasher being a function of the bytes fed (vstd's DefaultHasher specification plus assumed contracts for the two Hash::hash calls and for cloning the hasher)"],
     "trust": VERUS_TRUST + [ADAPTER_NOTE, "Verus unit extend calls convert_bases / pack_32_bases by the contract that Kani harness a_block proves on the real code (lane t of the packed word is base_to_bits(block[t]))", "the two AVX2 intrinsic models (_mm256_shuffle_epi8, _mm256_testc_si256) follow the Intel SDM; validated natively against the CPU by `debruijn-replay --validate-avx-models`, not proved"],
     "level_text": "The six byte tables are proved for all 256 byte values and the vector path (convert_bases + pack_32_bases, real code incl. unsafe loadu) is proved equal to the scalar path on ALL 256^32 blocks, lane by lane, with the valid flag exact (Kani, complete). DnaString::from_acgt_bytes_hashn is proved as a whole function, for every input (Verus unit hashn, rule R20): the result has one base per byte; A/C/G/T in either case give 0/1/2/3; every other byte gives a base < 4 that is a function of the read name and the position only (finish of a hasher fed exactly the read name and the position) - hence repeatable and independent of the vector path, the other bytes and the string length.",
     "level_note": "Trusted: Kani/CBMC; two intrinsic models (Kani cannot translate pshufb / vptest). The chunking loop of from_acgt_bytes is not under an unbounded contract (undecided_clauses).",
@@ -287,9 +299,9 @@ PROPS["C01"] = {
     "bounded": lambda tier: [("dna_string::verif::d_packed_add_b", "PackedDnaStringSet::add x2 (5 and 3 bases) then get")],
     "design_ref": "DESIGN.md §6 C01 (as-built note in the section-6 preamble)",
     "undecided": [
-        "entry point compress_kmers_no_exts (its HashSet is built with iterator adapters) is not under contract as a whole: the derivation of each k-mer's extension byte IS (unit noexts, rule R15: base b is recorded on a side exactly when the canonical form of the neighbour through b is in the given set; observed while reading: it canonicalises with min_rc even when stranded), the call it ends in is the proved from-hash function",
+        "entry point compress_kmers_no_exts IS proved as a whole function (unit buildnode; R21: the HashSet<&K> built with iterator adapters is the seam KmerRefSet::of_keys - membership = being one of the keys, as many elements as keys when they are distinct): the graph it returns satisfies graph_post for a table that holds exactly the input k-mers, each with the extension set DERIVED from the key set (base b on a side exactly when the canonical form of the neighbour through b is a key) and a clone of its payload; like the slice entry point, under the hypothesis that this derived table meets the from-hash preconditions (backlinks_ok, canon_keys) in whatever slot order; distinct input k-mers are a precondition (its assert_eq! panics otherwise); observed while reading: it canonicalises with min_rc even when stranded",
         "'an extension recorded for BOTH of them': proved for the k-mer the walk steps FROM (the base is in its extension set, and is its sole extension on that side) and as 'exactly one extension on the facing side' for the k-mer stepped TO; that this one facing extension names the first k-mer is a property of the input table (extension symmetry), which the code does not check",
-        "BaseGraph::finish (boomphf index construction over the node ends) and PackedDnaStringSet::add (generic IntoIterator + Borrow; bounded stand-in only) are outside the Verus subset: the statement is about the node sequences handed to BaseGraph::add, the accessors that read them back are proved in unit packedset",
+        "BaseGraph::finish is proved relative to boomphf's assumed contract (C19, unit graphfn); PackedDnaStringSet::add is generic over IntoIterator + Borrow - proved at two instances of its item source (unit packedset, R21): Vec<u8> / u8, and `&VecDeque<u8>` / &u8 - the one compress_kmers uses (`graph.add(&seq, ..)`, with `for b in sequence` read as `sequence.iter()`); in unit buildnode it is used by contract: the statement is about the node sequences handed to BaseGraph::add, the accessors that read them back are proved in unit packedset",
         "bounded cross-check of the whole pipeline is intractable: boomphf's MPHF construction keeps CBMC busy > 50 min even for 3 concrete keys"],
     "trust": VERUS_TRUST + GRAPH_TRUST + [SEAM_NOTE,
         "CompressionSpec::join_test / reduce are deterministic functions of their arguments (join_spec, reduce_spec)",
@@ -438,18 +450,18 @@ PROPS["C19"] = {
 PROPS["C20"] = {
     "title": "Exports and persistence are faithful",
     "kani": lambda tier: [],
-    "verus": [("gfalinks", r"^(gfa_links|gfa_s_line|DebruijnGraph::gfa_all_nodes|DnaStringSlice::to_dna_string)$"),
-              ("jsonlinks", r"^DebruijnGraph::(json_links_step|json_last_with_links|json_nodes_step)$|^Node::(edge_json_step|edges_json_group)$")],
+    "verus": [("gfalinks", r"^(gfa_links|gfa_s_line|DebruijnGraph::gfa_all_nodes|DebruijnGraph::node_to_gfa|lemma_flat_frame|DnaStringSlice::to_dna_string)$"),
+              ("jsonlinks", r"^DebruijnGraph::(json_links_step|json_last_with_links|json_nodes_step)$|^Node::(edge_json_step|edges_to_json)$")],
     "bounded": lambda tier: [],
     "design_ref": "DESIGN.md §6 C20",
     "undecided": [
-        "serde round trips of k-mers, DNA strings, extension sets and graphs (derive output, third-party code), the contents of the node objects and the `rest` part of the JSON export, the header of the GFA export, the composition of node_to_gfa's three parts, byte-level well-formedness of anything written: string / byte-grammar reasoning neither verifier supports - NOT decided",
+        "serde round trips of k-mers, DNA strings, extension sets and graphs (derive output, third-party code), the contents of the node objects and the `rest` part of the JSON export, the header of the GFA export, byte-level well-formedness of anything written: string / byte-grammar reasoning neither verifier supports - NOT decided",
         "the GFA link clause is decided per node (which adjacencies node u writes); 'every adjacency exactly once over the whole file' follows from it only together with edge symmetry of the graph (if u lists v, v lists u - C03's undecided global symmetry) by the argument written next to must_list in verus/units/gfalinks.rs.tmpl; the exemption for palindromic single-k-mer nodes is not modelled (such a node may list a link twice, which the statement allows)",
-        "node_to_gfa as a whole (`w: &mut dyn Write`, the tag closure, `?` on the S line) is outside the Verus subset: the two link loops are a statement range (rule R15), `writeln!` with a declared format string is recorded by rule R19, I/O errors end the function early and nothing is claimed then"],
+        "node_to_gfa IS proved as a whole function (R21: `w: &mut dyn Write` is the line-log sink; R19 records each writeln! with a declared format string): on success it has appended exactly one block - the S line with the node's id and sequence text (the tag text is the closure's answer, unspecified) followed by the selected L lines of the left and of the right edges - and the node loop of write_gfa appends one such block per node in id order; I/O errors end the function early and nothing is claimed then; the text the format strings render to is core::fmt's business"],
     "trust": VERUS_TRUST + GRAPH_TRUST + [SEAM_NOTE,
         "core::fmt renders an integer / a string slice argument of writeln! as itself, one line per call (rule R19's line log)",
         "Node::l_edges / r_edges are functions of the graph and the node (edges_of); their relational contract is proved in unit nodesall"],
-    "level_text": "Partial claim, two clauses. (1) JSON export, separators of the \"links\" array: one trip of the links loop of the real DebruijnGraph::to_json_rest (rule R15 loop body; the whole body of Node::edges_to_json is proved separately - edges_json_group, rules R20 + R17 -: one link object per right-going edge with the right source, target and arrival side, commas exactly between them, and the result says whether anything was written) is proved to follow a node's group with a separator EXACTLY when a later node contributes a group too, and the preceding loop (R15) to compute the last node that has links - so the array has no leading, doubled or trailing comma for any graph, with or without links on the last node (Verus, unbounded). Also: one trip of the nodes loop (the node's object, then a separator exactly when another node follows: every node once, in id order) and one trip of the loop of Node::edges_to_json (the link object carries the right source, target and arrival side 'L'/'R', followed by a comma exactly when another edge follows). (2) GFA export: the node loop of write_gfa exports every node exactly once in id order (given node_to_gfa's assumed whole-function behaviour); the S line of a node carries its id and its sequence rendered as ACGT text (to_dna_string proved); and the link clause, per node: the two loops of the real DebruijnGraph::node_to_gfa that write the L lines (rule R15 statement range) are proved to write, in order, exactly one line `L u - v t (K-1)M` for every left edge of u whose target id is >= u and exactly one line `L u + v t (K-1)M` for every right edge whose target id is > u OR which is a right-side hairpin (target u, arriving at u's right end), with t = '+' when the link arrives at v's left end and '-' at its right end - the canonical-emitter rule under which every adjacency, including self-links on either side, is listed exactly once (Verus, unbounded).",
+    "level_text": "Partial claim, two clauses. (1) JSON export, separators of the \"links\" array: one trip of the links loop of the real DebruijnGraph::to_json_rest (rule R15 loop body; the whole body of Node::edges_to_json is proved separately - edges_to_json, rules R20 + R17 -: one link object per right-going edge with the right source, target and arrival side, commas exactly between them, and the result says whether anything was written) is proved to follow a node's group with a separator EXACTLY when a later node contributes a group too, and the preceding loop (R15) to compute the last node that has links - so the array has no leading, doubled or trailing comma for any graph, with or without links on the last node (Verus, unbounded). Also: one trip of the nodes loop (the node's object, then a separator exactly when another node follows: every node once, in id order) and one trip of the loop of Node::edges_to_json (the link object carries the right source, target and arrival side 'L'/'R', followed by a comma exactly when another edge follows). (2) GFA export: the node loop of write_gfa exports every node exactly once in id order (given node_to_gfa's assumed whole-function behaviour); the S line of a node carries its id and its sequence rendered as ACGT text (to_dna_string proved); and the link clause, per node: the two loops of the real DebruijnGraph::node_to_gfa that write the L lines (rule R15 statement range) are proved to write, in order, exactly one line `L u - v t (K-1)M` for every left edge of u whose target id is >= u and exactly one line `L u + v t (K-1)M` for every right edge whose target id is > u OR which is a right-side hairpin (target u, arriving at u's right end), with t = '+' when the link arrives at v's left end and '-' at its right end - the canonical-emitter rule under which every adjacency, including self-links on either side, is listed exactly once (Verus, unbounded).",
     "level_note": "PARTIAL: only the L lines of the GFA export and the separators of the JSON links array; serde, the rest of the JSON export, S lines and byte-level well-formedness are not decided (see undecided_clauses). Two genuine defects were found by these obligations and repaired (known_findings.json F4, F5).",
 }
 
